@@ -32,7 +32,12 @@ var ActorTypes = ActivityVocabularyTypes{
 // For example, a Profile object might be used as an actor, or a type from an ActivityStreams extension.
 // Actors are retrieved like any other Object in ActivityPub.
 // Like other ActivityStreams objects, actors have an id, which is a URI.
-type CanReceiveActivities Item
+//
+// It is the Item type itself under another name, not a second interface type with the same methods: an Activity is
+// viewed as an IntransitiveActivity (and back) by reinterpreting the pointer, and the actor field of the one is of
+// type Item, of the other of this type. An interface value stored through a field of one interface type and read
+// through a field of another carries the wrong method table: it prints alike, but == and type assertions on it fail.
+type CanReceiveActivities = Item
 
 type Actors interface {
 	Actor
